@@ -491,6 +491,57 @@ Proof.
   exact (proj2 (solve_establishes pc Hwf Hall Hcr _ _ Hrun Ha)).
 Qed.
 
+(** ** Faults elsewhere do not matter (C13)
+    [mreach i]: program [i] runs fault-free, every OTHER program takes arbitrary steps of the full
+    system - failed operations, arbitrary read answers, a write cut short. *)
+Definition ostep (i : nat) (s s1 : sys) : Prop := sstep s s1 /\ nth_error (s_pool s1) i = nth_error (s_pool s) i.
+Inductive mreach (i : nat) : sys -> sys -> Prop :=
+| mr_refl s : mreach i s s
+| mr_own s s1 s2 : fstep s s1 -> mreach i s1 s2 -> mreach i s s2
+| mr_other s s1 s2 : ostep i s s1 -> mreach i s1 s2 -> mreach i s s2.
+
+Lemma sstep_WI s s1 : sstep s s1 -> alias_free (s_fs s) -> Forall (pgood content es) (s_pool s) ->
+  WI (s_fs s) (s_fs s1) /\ alias_free (s_fs s1) /\ Forall (pgood content es) (s_pool s1).
+Proof.
+  intros Hss Ha Hp.
+  destruct (sys_step_invariant content es (s_fs s) Hfun s s1 Hss (SI_init content es (s_fs s) Ha) Hp) as [HS Hp1].
+  split; [now apply SI_WI|]. split; [exact (si_alias _ _ _ _ HS)|exact Hp1].
+Qed.
+
+Lemma mreach_prun i : forall s s', mreach i s s' -> alias_free (s_fs s) -> Forall (pgood content es) (s_pool s) ->
+  forall pg o, nth_error (s_pool s) i = Some pg -> nth_error (s_pool s') i = Some (Ret o) -> prun (s_fs s) pg (s_fs s') o.
+Proof.
+  induction 1 as [s|s s1 s2 Hst Hr IH|s s1 s2 [Hss Hsame] Hr IH]; intros Ha Hp pg o Hn Hn'.
+  - rewrite Hn in Hn'. inversion Hn'; subst. constructor. apply WI_refl.
+  - destruct (fstep_WI s s1 Hst Ha Hp) as (W & A1 & P1).
+    destruct Hst as [f pool j p off len k Hj|f pool j op k f1 ok Hj Happ|f pool j id k Hj|f pool j id k Hj]; cbn [s_fs s_pool] in *.
+    + destruct (Nat.eq_dec i j) as [->|Hij].
+      * rewrite Hj in Hn. inversion Hn; subst. econstructor; [apply WI_refl|]. apply (IH A1 P1); [|exact Hn']. now apply (nth_set_nth_eq pool j _ (Read p off len k)).
+      * apply (prun_env _ f); [exact W|]. apply (IH A1 P1); [|exact Hn']. now rewrite nth_set_nth_neq.
+    + destruct (Nat.eq_dec i j) as [->|Hij].
+      * rewrite Hj in Hn. inversion Hn; subst. econstructor; [apply WI_refl|exact Happ|]. apply (IH A1 P1); [|exact Hn']. now apply (nth_set_nth_eq pool j _ (Mut op k)).
+      * apply (prun_env _ f1); [exact W|]. apply (IH A1 P1); [|exact Hn']. now rewrite nth_set_nth_neq.
+    + destruct (Nat.eq_dec i j) as [->|Hij].
+      * rewrite Hj in Hn. inversion Hn; subst. constructor. apply (IH A1 P1); [|exact Hn']. now apply (nth_set_nth_eq pool j _ (Lock id k)).
+      * apply (IH A1 P1); [|exact Hn']. now rewrite nth_set_nth_neq.
+    + destruct (Nat.eq_dec i j) as [->|Hij].
+      * rewrite Hj in Hn. inversion Hn; subst. constructor. apply (IH A1 P1); [|exact Hn']. now apply (nth_set_nth_eq pool j _ (Unlock id k)).
+      * apply (IH A1 P1); [|exact Hn']. now rewrite nth_set_nth_neq.
+  - destruct (sstep_WI s s1 Hss Ha Hp) as (W & A1 & P1).
+    apply (prun_env _ (s_fs s1)); [exact W|]. apply (IH A1 P1); [|exact Hn']. now rewrite Hsame.
+Qed.
+
+Theorem success_means_in_place_despite_faults s s' i pc :
+  alias_free (s_fs s) -> Forall (pgood content es) (s_pool s) ->
+  wf_piece content pc -> Forall (fun sg => In (ps_entry sg) es) (w_segs pc) -> cr H content pc ->
+  nth_error (s_pool s) i = Some (solve_prog H pc) -> mreach i s s' -> nth_error (s_pool s') i = Some (Ret Success) ->
+  forall sg, In sg (w_segs pc) -> e_pad (ps_entry sg) = false -> holds_seg (s_fs s') sg.
+Proof.
+  intros Ha Hp Hwf Hall Hcr Hn Hr Hn'.
+  pose proof (mreach_prun i s s' Hr Ha Hp _ _ Hn Hn') as Hrun.
+  exact (proj2 (solve_establishes pc Hwf Hall Hcr _ _ Hrun Ha)).
+Qed.
+
 (** ... and it stays in place in every later state of the run, fault-free or not (other workers'
     operations, I/O failures, a crash - a write cut short included). *)
 Theorem in_place_forever s s' pc sg : alias_free (s_fs s) -> Forall (pgood content es) (s_pool s) -> sreach s s' ->
